@@ -58,6 +58,12 @@ var m6Fields = map[string][]string{
 	"storeKey":  {"flags", "payload", "expiresAt", "id"},
 	"storeList": {"head", "tail", "count"},
 	"listItem":  {"next", "prev", "element"},
+	"dataStore": {"data"}, // replacing the whole keyspace (flush)
+}
+
+// m6Exempt: functions whose stores are not mutations by commands, with the reason.
+var m6Exempt = map[string]string{
+	"(*dataStore).load": "the loader installs the state read from disk at start-up; there is nothing to save or to version",
 }
 
 // isFreshDeep extends isFresh to objects reachable only through fields of a fresh object.
@@ -191,6 +197,9 @@ func (m *Models) Muts() *MutModel {
 		}
 		if !live[fn] {
 			mm.dead = append(mm.dead, fnName(fn))
+			continue
+		}
+		if _, ex := m6Exempt[fnName(fn)]; ex {
 			continue
 		}
 		for _, in := range instrsOf(fn) {
